@@ -3,7 +3,6 @@ package props
 import (
 	"context"
 	"fmt"
-	"sort"
 	"strings"
 	"time"
 
@@ -79,6 +78,9 @@ func c10ServiceUnits(_ string) []hx.Unit {
 			ctx, cancel := mcontext.WithTimeout(ctx0, 8*time.Second)
 			defer cancel()
 			_, _ = svc.AuctionBlock(ctx, c05Slot, phase0.Hash32{9}, e.acct.pubkey())
+			// the beacon node asks vouch's builder endpoint for the bid on another parent: no auction was held for it,
+			// vouch holds one on the spot
+			_, _ = svc.BuilderBid(ctx, c05Slot, phase0.Hash32{8}, e.acct.pubkey())
 			_, uerr = svc.UnblindBlock(ctx, block)
 			for _, r := range e.relays {
 				if r.n > 0 {
@@ -92,7 +94,6 @@ func c10ServiceUnits(_ string) []hx.Unit {
 			if by == "no-entry" {
 				want = "https://relay0.example.com/"
 			}
-			sort.Strings(askedBid)
 			v := mc.Verdict{Outcome: "service/" + by, Nontrivial: by != "no-entry",
 				Sample: fmt.Sprintf("proposer entry by %s: bid asked of [%s], unblinding asked of [%s]", by, strings.Join(askedBid, " "), strings.Join(asked, " "))}
 			switch {
@@ -100,8 +101,8 @@ func c10ServiceUnits(_ string) []hx.Unit {
 				v.Violation, v.Key = v.Sample+": panic: "+firstLine(r.Panic), "C10/service/panic"
 			case !done:
 				v.Violation, v.Key = v.Sample+": the calls never returned", "C10/service/never-returned"
-			case len(askedBid) != 1 || askedBid[0] != want:
-				v.Violation, v.Key = v.Sample+fmt.Sprintf(": the auction must use exactly the resolved relay %s", want), "C10/service/auction-relays-not-the-resolved-ones"
+			case len(askedBid) != 2 || askedBid[0] != want || askedBid[1] != want:
+				v.Violation, v.Key = v.Sample+fmt.Sprintf(": the proposer's auction and the auction held for the beacon node's bid request must each use exactly the resolved relay %s", want), "C10/service/auction-relays-not-the-resolved-ones"
 			case len(asked) != 1 || asked[0] != want:
 				v.Violation, v.Key = v.Sample+fmt.Sprintf(": the unblinding must use exactly the resolved relay %s (unblinding error: %v)", want, uerr), "C10/service/unblinding-relays-not-the-resolved-ones"
 			}
